@@ -73,11 +73,21 @@ Definition look (keys : list str) (vals : list N) (k : str) : N :=
 Definition graph_of (net : list rxn) (iso : list str) (sid rids : list N) : bgraph :=
   export (look (species_set net iso) sid) (look (map rid (edges_sorted net)) rids) net iso.
 
+(** the four premises of [C17_verdicts_sound] (a flag of the external numerics that is set must be true), checked on THIS input against
+    the certified truths: scan of the left basis / LP of _positive_conservation_law_from_basis -> a law exists; LP of is_consistent
+    accepted / scan of the right basis -> a flux exists.  The implementation side of the slot is four Trues: a premise that fails on
+    some input is a correspondence break. *)
+Definition premises_ok (n : nat) (S : list (list Z)) (cc fc : fcert) (nm : numerics) : list bool :=
+  let tc := match decide_conservative n S cc with Some true => true | _ => false end in
+  let tf := match decide_consistent n S fc with Some true => true | _ => false end in
+  [implb (nm_scanL nm) tc; implb (nm_lpL nm) tc; implb (Nat.eqb (nm_lpR nm) 0) tf; implb (nm_scanR nm) tf].
+
 Definition run_ids (net : list rxn) (iso : list str) (rc : rcert) (cc fc : fcert) (nm : numerics) (sid rids : list N) : tok :=
   let G := graph_of net iso sid rids in
   match run net iso rc cc fc nm with
   | L (t0 :: _ :: _ :: _ :: _ :: _ :: rest) =>
       L (t0 :: tlist tstrN (node_labels (bg_species G)) :: tlist tstrN (node_labels (bg_rxns G))
-            :: tmat (build_S_nodes G) :: tmat (fill Reactant G) :: tmat (fill Product G) :: rest)
+            :: tmat (build_S_nodes G) :: tmat (fill Reactant G) :: tmat (fill Product G)
+            :: rest ++ [tlist tbool (premises_ok (length (reaction_order net)) (build_S net iso) cc fc nm)])
   | t => t
   end.
